@@ -19,7 +19,7 @@ func init() { core.Register(c10{}) }
 func (c10) ID() string    { return "C10" }
 func (c10) Level() string { return "exploration" }
 func (c10) Rule() string {
-	return "cases = (level index|db, index type, shard count in {1,2,3,4,16,64,1024}, key set of 0..300 keys with shared prefixes / 0xff-heavy keys / one-key and empty sets, plus large populations of 4 Ki..300 K keys sized at and around powers of two and round decimal numbers, direction, prefix incl. empty, whole-key and longer-than-key prefixes); per case 6..12 iterators, created in groups of 1..3 whose lifetimes overlap (later ones are created while earlier ones are partly consumed, half of the time with no write in between; calls then alternate between them at random, with ListKeys/Fold in between), each driven by 5..200 calls of Rewind/Seek/Next/Valid/Key/Value where the first call on a fresh iterator is Rewind or Seek and every Seek target lies at or ahead of the cursor in iteration order (on an exhausted iterator only targets beyond the last key); the first iterator of every case (the first two over a large population) starts with a complete Rewind..Next walk to exhaustion; after EVERY call (Valid, Key, Value) is compared with a cursor over the sorted snapshot taken from the model at creation, and the slice Value returned is then overwritten by the harness (Value is asked again at the same position after interleaved writes); between calls the harness overwrites, deletes and inserts keys before/after the cursor, which must not change any output; ListKeys and Fold (incl. early stop) must equal the same ordered snapshot. Non-trivial: iterator with >=2 non-empty shards, >=1 Seek after a Next and >=1 Rewind after exhaustion; distinct = hash of (level, type, shards, keys, call log)"
+	return "cases = (level index|db, index type, shard count in {1,2,3,4,16,64,1024}, key set of 0..300 keys with shared prefixes / 0xff-heavy keys / one-key and empty sets, plus large populations of 4 Ki..300 K keys sized at and around powers of two and round decimal numbers, direction, prefix incl. empty, whole-key and longer-than-key prefixes); per case 6..12 iterators, created in groups of 1..3 whose lifetimes overlap (later ones are created while earlier ones are partly consumed, half of the time with no write in between; calls then alternate between them at random, with ListKeys/Fold in between), each driven by 5..200 calls of Rewind/Seek/Next/Valid/Key/Value where the first call on a fresh iterator is Rewind or Seek and every Seek target lies at or ahead of the cursor in iteration order (on an exhausted iterator only targets beyond the last key); the first iterator of every case (the first two over a large population) starts with a complete Rewind..Next walk to exhaustion; after EVERY call (Valid, Key, Value) is compared with a cursor over the sorted snapshot taken from the model at creation, and the slice Value returned is then overwritten by the harness, and the harness appends to every key it is handed by Key, ListKeys and Fold (writing into its spare capacity, if any) (Value is asked again at the same position after interleaved writes); between calls the harness overwrites, deletes and inserts keys before/after the cursor, which must not change any output; ListKeys and Fold (incl. early stop) must equal the same ordered snapshot. Non-trivial: iterator with >=2 non-empty shards, >=1 Seek after a Next and >=1 Rewind after exhaustion; distinct = hash of (level, type, shards, keys, call log)"
 }
 func (c10) Assumptions() []string {
 	return []string{"Seek to a target behind the cursor is never generated (unclaimed)", "Key/Value/Next on a never-positioned (fresh) iterator are not generated: position first with Rewind or Seek",
@@ -291,6 +291,9 @@ func (c10) Run(c core.Case, w *core.Worker) core.Result {
 			fail(fmt.Sprintf("after %s at key %q: %s", call, snap[pos].k, msg))
 			return false
 		}
+		// the caller derives another key from the one it was handed (append writes into spare
+		// capacity when there is any): no other key the iterator yields may change
+		_ = append(ut.Key(), 0xEE, 0xEE, 0xEE)
 		return true
 	}
 	nCreated := 0
@@ -527,6 +530,9 @@ func (c10) Run(c core.Case, w *core.Worker) core.Result {
 		}
 		sort.Slice(want, func(i, j int) bool { return bytes.Compare(want[i].k, want[j].k) < 0 })
 		got := db.ListKeys()
+		for i := range got {
+			_ = append(got[i], 0xEE, 0xEE, 0xEE) // see above: must not reach any other returned key
+		}
 		res.Add("listkeys_compared", 1)
 		if len(got) != len(want) {
 			fail(fmt.Sprintf("ListKeys returned %d keys, model has %d", len(got), len(want)))
@@ -549,6 +555,7 @@ func (c10) Run(c core.Case, w *core.Worker) core.Result {
 				bad = fmt.Sprintf("Fold visit #%d = %q (len %d), model expects %q", i, k, len(v), keyAt(want, i))
 				return false
 			}
+			_ = append(k, 0xEE, 0xEE, 0xEE)
 			i++
 			return i-1 != stopAt
 		})
